@@ -72,7 +72,7 @@ def gen_chain(rng):
 def gen_refs(rng):
     files = [gen.gen_rows(rng, min_rec=2, max_rec=7, ncol=3, blank_p=0.1, ragged_p=0.25) for _ in range(rng.randint(1, 3))]
     nruns = rng.randint(1, 3)
-    runs = [{"file": rng.randrange(len(files)), "method": rng.choice(["collect_paths", "next_paths_collect", "collect_by_line"]), "tick_s": rng.choice([1, 2, 61, 3600])} for _ in range(nruns)]
+    runs = [{"file": rng.randrange(len(files)), "method": rng.choice(["collect_paths", "next_paths_collect", "collect_by_line"] * 2 + ops.METHODS), "tick_s": rng.choice([1, 2, 61, 3600])} for _ in range(nruns)]
     return {
         "kind": "refs",
         "files": files,
@@ -89,20 +89,24 @@ def gen_replay(rng):
     files = [gen.gen_rows(rng, min_rec=2, max_rec=7, ncol=3, blank_p=0.1) for _ in range(rng.randint(1, 3))]
     k = rng.randint(1, 2)
     members = [{"id": f"g{j}", "scan": rng.choice(["*", "*", "1*"]), "comps": [filter_comp(rng, files[0][0], 6)]} for j in range(k)]
-    nruns = rng.randint(1, 3)
-    runs = [
-        {"file": rng.randrange(len(files)), "method": rng.choice(["collect_paths", "next_paths_collect", "collect_by_line"]), "tick_s": rng.choice([1, 2, 61, 3600, 43200]), "inst": rng.choice(["new", "reused"])}
-        for _ in range(nruns)
-    ]
+
+    def run_op():
+        return {"op": "run", "file": rng.randrange(len(files)), "method": rng.choice(["collect_paths", "next_paths_collect", "collect_by_line"]), "tick_s": rng.choice([1, 2, 61, 3600, 43200]), "inst": rng.choice(["new", "reused", "reused"])}
+
+    def replay_op():
+        return {"op": "replay", "method": rng.choice(["collect_paths", "next_paths_collect", "collect_by_line"]), "inst": rng.choice(["new", "reused", "reused"]), "tick_s": rng.choice([1, 2, 5])}
+
+    opsl = [run_op() for _ in range(rng.randint(1, 3))] + [replay_op()]
+    if rng.random() < 0.5:
+        # the group runs again and the SAME reference is replayed again
+        opsl += [run_op() for _ in range(rng.randint(1, 2))] + [replay_op()]
     return {
         "kind": "replay",
         "files": files,
         "members": members,
-        "runs": runs,
+        "ops": opsl,
         "target": rng.randrange(k),
-        "prefix_len": rng.choice([4, 10, 13, 19]),
-        "reader_inst": rng.choice(["new", "reused"]),
-        "reader_method": rng.choice(["collect_paths", "next_paths_collect", "collect_by_line"]),
+        "prefix_len": rng.choice([4, 4, 10, 13, 19]),
         "start_hour": rng.choice([9, 11, 12, 23]),
     }
 
@@ -138,6 +142,23 @@ def reductions(sc):
                 yield c
         if sc["method"] != "collect_paths":
             yield with_(sc, method="collect_paths")
+    elif sc["kind"] == "replay":
+        for cand in drop_each(sc["ops"], 1):
+            yield with_(sc, ops=cand)
+        for fi in range(len(sc["files"])):
+            for rows in gen.rows_reductions(sc["files"][fi]):
+                c = with_(sc)
+                c["files"][fi] = rows
+                yield c
+        for j, r in enumerate(sc["ops"]):
+            if r["method"] != "collect_paths":
+                c = with_(sc)
+                c["ops"][j]["method"] = "collect_paths"
+                yield c
+            if r["tick_s"] != 1:
+                c = with_(sc)
+                c["ops"][j]["tick_s"] = 1
+                yield c
     else:
         for cand in drop_each(sc["runs"], 1):
             yield with_(sc, runs=cand)
@@ -317,7 +338,7 @@ def _refs(sc, out, w):
     want_b = (want_vars.get("t") or {}).get("k")
     if rv.get("b") != want_b:
         out.v("variable_reference", f"{where}: $G.variables.t.k evaluated to {rv.get('b')!r}, the most recent run of G left {want_b!r} (errors {errs})", form="tracking")
-    if lines:
+    if lines and last["method"] in ops.COLLECTING:
         if rv.get("h") != want_col:
             out.v("header_reference", f"{where}: {ref_h} evaluated to {rv.get('h')!r}, the values collected under h{col} are {want_col!r} (errors {errs})", by_id=sc["by_id"])
     out.fault("reference_resolved", 4)
@@ -331,8 +352,6 @@ def _refs(sc, out, w):
 
 
 def _replay(sc, out, w):
-    import datetime as _dt
-
     for fi, rows in enumerate(sc["files"]):
         w.write_csv(f"src/f{fi}.csv", rows)
     seams.SimClock.set(seams.EPOCH.replace(hour=sc["start_hour"], minute=59, second=rng_free_second(sc)))
@@ -343,55 +362,63 @@ def _replay(sc, out, w):
             cs.file_manager.add_named_file(name=f"f{fi}", path=f"src/f{fi}.csv")
         cs.paths_manager.add_named_paths(name="G", paths=[gen.render(m) for m in members])
         cs.paths_manager.add_named_paths(name="R", paths=["~id:r0~ $[*][ yes() ]"])
+    tid = members[sc["target"]]["id"]
     last_dir = None
-    for ri, run in enumerate(sc["runs"]):
-        seams.SimClock.advance(seconds=run["tick_s"])
+    g_runs = 0
+    replays = 0
+    hist = []
+    for oi, op in enumerate(sc["ops"]):
+        seams.SimClock.advance(seconds=op["tick_s"])
         out.fault("clock_forward")
-        if run["inst"] == "new":
+        if op["inst"] == "new":
             cs = ops.new_csvpaths()
             out.fault("restart")
-        elif ri:
+        elif oi:
             out.fault("instance_reuse")
-        ops.run_group(cs, run["method"], "G", fname=f"f{run['file']}")
+        if op["op"] == "run":
+            ops.run_group(cs, op["method"], "G", fname=f"f{op['file']}")
+            out.runs += 1
+            g_runs += 1
+            last_dir = ops.results_of(cs, "G")[0].run_dir
+            hist.append(f"run(f{op['file']},{op['inst']})")
+            continue
+        if last_dir is None:
+            continue
+        data_path = os.path.join(last_dir, tid, "data.csv")
+        prefix = os.path.basename(last_dir)[: sc["prefix_len"]]
+        ref = f"$G.results.{prefix}:last.{tid}"
+        hist.append(f"replay({ref},{op['inst']})")
+        if "." in prefix or not os.path.isfile(data_path):
+            # a '.N' suffixed directory cannot be named in a reference; no data.csv means the member collected nothing
+            continue
+        # 'most recent run whose name has the prefix': every earlier run of G in this history is older (clock only moves forward)
+        want = D.read_csv(data_path)
+        where = f"history {hist}; reader {op['method']}"
+        try:
+            ops.run_group(cs, op["method"], "R", fname=ref)
+        except Exception as e:  # noqa: BLE001
+            out.v("replay_raised", f"{where}: raised {ops.exc_sig(e)}; expected a replay of {data_path}", exc=type(e).__name__, nth_replay=replays)
+            break
         out.runs += 1
-        last_dir = ops.results_of(cs, "G")[0].run_dir
-    tid = members[sc["target"]]["id"]
-    data_path = os.path.join(last_dir, tid, "data.csv")
-    name = os.path.basename(last_dir)
-    prefix = name[: sc["prefix_len"]]
-    ref = f"$G.results.{prefix}:last.{tid}"
-    out.sig = ["replay", len(members), len(sc["runs"]), [r["inst"][0] for r in sc["runs"]], sc["prefix_len"], sc["reader_inst"], sc["reader_method"]]
-    if "." in prefix or not os.path.isfile(data_path):
-        # a '.N' suffixed directory cannot be named in a reference; no data.csv means the member collected nothing
-        out.nontrivial = False
-        out.log("skip", prefix, os.path.isfile(data_path))
-        return
-    want = D.read_csv(data_path)
-    seams.SimClock.advance(seconds=2)
-    if sc["reader_inst"] == "new":
-        cs = ops.new_csvpaths()
-        out.fault("restart")
-    where = f"G run {len(sc['runs'])} time(s) ({[(r['inst'], r['tick_s']) for r in sc['runs']]}); reader {sc['reader_method']} with filename {ref!r}"
-    try:
-        ops.run_group(cs, sc["reader_method"], "R", fname=ref)
-    except Exception as e:  # noqa: BLE001
-        out.v("replay_raised", f"{where}: raised {ops.exc_sig(e)}; expected a replay of {data_path}", exc=type(e).__name__)
-        return
-    out.runs += 1
-    r = ops.results_of(cs, "R")[0]
-    got = ops.result_lines(r)
-    if got != want:
-        out.v("replay_lines", f"{where}: read {got!r:.300}, the referenced member's data.csv ({data_path}) holds {want!r:.300}")
-    try:
-        mm = D.read_json(os.path.join(r.run_dir, "r0", "manifest.json"))
-        if mm.get("actual_data_file") != data_path:
-            out.v("replay_actual_data_file", f"{where}: reader manifest actual_data_file={mm.get('actual_data_file')!r}, expected {data_path!r}")
-    except D.ReadError as e:
-        out.v("member_manifest_unreadable", f"{where}: {e}")
-    out.fault("reference_resolved")
-    out.nontrivial = True
-    out.probe("results reference after more than one run", len(sc["runs"]) > 1)
-    out.log(got, want, len(out.violations))
+        replays += 1
+        r = ops.results_of(cs, "R")[0]
+        got = ops.result_lines(r)
+        if got != want:
+            out.v("replay_lines", f"{where}: read {got!r:.300}, the referenced member's data.csv of the most recent run ({data_path}) holds {want!r:.300}", nth_replay=replays)
+        try:
+            mm = D.read_json(os.path.join(r.run_dir, "r0", "manifest.json"))
+            if mm.get("actual_data_file") != data_path:
+                out.v("replay_actual_data_file", f"{where}: reader manifest actual_data_file={mm.get('actual_data_file')!r}, expected {data_path!r}", nth_replay=replays)
+        except D.ReadError as e:
+            out.v("member_manifest_unreadable", f"{where}: {e}")
+        out.fault("reference_resolved")
+        if out.violations:
+            break
+    out.sig = ["replay", len(members), [o["op"][0] + o["inst"][0] for o in sc["ops"]], sc["prefix_len"], [o["method"] for o in sc["ops"] if o["op"] == "replay"]]
+    out.nontrivial = replays > 0
+    out.probe("results reference after more than one run", g_runs > 1 and replays > 0)
+    out.probe("same reference replayed again after the group ran again", replays > 1)
+    out.log(hist, replays, len(out.violations))
 
 
 def rng_free_second(sc):
